@@ -237,9 +237,13 @@ Definition job_matches (st : state) (j : job) (now min_age : Z) : list id :=
                                  | None => false
                                  end) (subs st))
   | JPruneDeletedTopics =>
+      (* after the fix of F8: a topic that a live subscription still names as its
+         dead-letter topic is kept *)
       map t_id (filter (fun t => match t_deleted t with
                                  | Some dt => (dt <=? now - min_age) &&
-                                              negb (existsb (fun s => N.eqb (s_topic s) (t_id t)) (subs st))
+                                              negb (existsb (fun s => N.eqb (s_topic s) (t_id t)) (subs st)) &&
+                                              negb (existsb (fun s => sub_live s &&
+                                                                      on_eqb (s_dl_topic s) (Some (t_id t))) (subs st))
                                  | None => false
                                  end) (topics st))
   | JExpireSubs =>
@@ -342,7 +346,10 @@ Definition run_job (st : state) (now : time) (j : job) (min_age max : Z) (chosen
       done (set_subs st (upd_where (fun s => mem_id (s_id s) chosen) (s_set_deleted wnow) (subs st)))
            cnt (sort_ids chosen) n0
   | JDeadLetterSweep =>
-      let '(st1, fr1, w, n) := sweep_each st (sort_ids chosen) wnow fr in
+      (* the order in which the code processes the chosen rows is the database's; the
+         harness reconstructs it as far as it is observable (predecessor links between
+         the forwards) and passes [chosen] in that order *)
+      let '(st1, fr1, w, n) := sweep_each st chosen wnow fr in
       done st1 cnt w (n0 ++ n ++ match fr1 with [] => [] | _ => ["unexpected-delivery"%string] end)
   end.
 
